@@ -110,6 +110,8 @@ class SpecRun:
         if self.tier == 'thorough':
             timeout = int(opts.get('timeout_thorough', str(timeout * 3)))
         defs = [d for d in opts.get('define', '').split(',') if d]
+        if opts.get('enforce'):
+            defs.append('ENFORCE_' + opts['enforce'])
         cmd1 = ['goto-cc', '--function', name, self.cfile, '-o', gb1] + ['-D' + d for d in defs]
         rc, so, se, dt = sh(cmd1, 300)
         res['cmds'].append(' '.join(cmd1)); res['seconds'] += dt
@@ -136,7 +138,7 @@ class SpecRun:
         if opts.get('unwind'):
             flags += ['--unwind', opts['unwind'], '--unwinding-assertions']
         cmd3 = ['cbmc'] + flags + [gb2]
-        solver = opts.get('solver', 'cadical')   # measured: CaDiCaL 18 s where MiniSat needs 313 s (OnlineAverage::update)
+        solver = opts.get('solver') or self.spec.options.get('solver', 'cadical')   # measured: CaDiCaL 18 s where MiniSat needs 313 s (OnlineAverage::update)
         if solver in ('cadical', 'minisat2', 'glucose'):
             cmd3[1:1] = ['--sat-solver', solver]
         elif solver == 'kissat':
@@ -356,7 +358,7 @@ def finish(pid, tier, seed, t0, runs, results, bres, no_verdict):
                 o['case'] = r.get('case', '')
                 failing.setdefault(name, o)
         table.append({'spec': r['spec'], 'harness': r['harness'], 'case': r.get('case', ''), 'backend': 'A:cbmc-dfcc',
-                      'solver': r['opts'].get('solver', 'cadical'), 'seconds': round(r['seconds'], 2),
+                      'solver': r['opts'].get('solver') or 'cadical (or the spec-level @@option solver)', 'seconds': round(r['seconds'], 2),
                       'obligations': sum(1 for o in r['obligations'] if classify(o) != 'canary'),
                       'discharged': sum(1 for o in r['obligations'] if classify(o) != 'canary' and o['status'] == 'SUCCESS')})
     bounded = []
